@@ -1,0 +1,11 @@
+//go:build verif
+
+package signinit
+
+// ResetTimestamperForVerif drops the lazily created process-wide timestamper so a
+// harness can exercise its initialisation again (build tag "verif" only).
+func ResetTimestamperForVerif() {
+	mu.Lock()
+	ts = nil
+	mu.Unlock()
+}
